@@ -1,10 +1,11 @@
 (** Extraction of the executable C12 models and of the specification functions used as oracle.
     Only ExtrOcamlBasic is used: N/positive/nat stay the extracted inductive types. *)
 From Coq Require Import Extraction ExtrOcamlBasic.
-From XV Require Import C05.Spec05 C05.Model05 C12.Spec12 C12.Model12 C12.SpecTree12 C12.ModelSeq12.
+From XV Require Import C05.Spec05 C05.Model05 C12.Spec12 C12.Model12 C12.SpecTree12 C12.ModelSeq12 C12.ModelDt12 C12.SpecDt12.
 Extraction Language OCaml.
 Extraction "../ocaml/C12/gen_c12.ml"
   unescape_parse xml_string no_cdata_end scan_cdata utf16_enc
   enc_can format_bytes format_bytes_old format16 ser_doc_bytes esc1 in_escape_list in_escape_list_old
   cdata_items cdata_items_old citem_out valid_string
-  reparse normalise expressible_list in_scope_list list_weight mk_cfg format_seq write_seq.
+  reparse normalise expressible_list in_scope_list list_weight mk_cfg format_seq write_seq
+  ser_doc_dt_bytes parse_doctype dt_expressible pubid_char encoding_used version_used is_xml11.
